@@ -41,14 +41,17 @@ def _lib_for(modname):
 
 
 def _worker(job):
-    modname, cname, seed, overrides = job
+    modname, cname, seed, overrides = job[:4]
+    scope = job[4] if len(job) > 4 else None
     from pyvc.repo import Repo
     from pyvc.verify import verify_case
     mod = importlib.import_module(modname)
     case = [c for c in mod.CASES if c.name == cname][0]
     repo = Repo(overrides=overrides)
-    res = verify_case(case, repo, _lib_for(modname), seed=seed)
-    return res.to_json()
+    res = verify_case(case, repo, _lib_for(modname), seed=seed, scope=scope)
+    out = res.to_json()
+    out["scope"] = scope
+    return out
 
 
 def _concrete_worker(job):
@@ -169,11 +172,21 @@ def main(argv=None):
     jobs = [(m, c.name, seed, None) for m, c in cases if c.proved]
     with mp.Pool(min(args.jobs, max(1, len(jobs)))) as pool:
         results = pool.map(_worker, jobs, chunksize=1) if jobs else []
+        # ------------------------------------------------------------ finite-scope refutation of undecided VCs
+        # (quantifier instantiation is refutation-incomplete: a false quantified VC answers 'unknown', DESIGN 2.9)
+        fs_jobs = []
+        for (m, c), r in zip([(m, c) for m, c in cases if c.proved], results):
+            if getattr(c, "scopes", None) and any(v["status"] == "unknown" for v in r["verdicts"]):
+                fs_jobs += [(m, c.name, seed, None, n) for n in c.scopes]
+        fs_results = pool.map(_worker, fs_jobs, chunksize=1) if fs_jobs else []
         # ------------------------------------------------------------ canaries (engine must catch seeded mutants)
         canary_report = run_canaries(prop, pool, seed)
         # ------------------------------------------------------------ CPython cross-check of the encoding
         xcheck = run_crosscheck(cases, pool, seed, tier)
     by_case = {r["case"]: r for r in results}
+    fs_by_case = {}
+    for r in fs_results:
+        fs_by_case.setdefault(r["case"], []).append(r)
     known = [k for k in load_known() if k.get("property") == prop]
     obligations = []
     refuted = []
@@ -198,8 +211,23 @@ def main(argv=None):
             if v["status"] == "refuted":
                 refuted.append(ob)
             elif v["status"] == "unknown":
-                lines.append(f"UNDECIDED obligation={ob['full']} ({v['detail'][:200]})")
-                bump(2)
+                hit = None
+                for fr in fs_by_case.get(c.name, []):
+                    for fv in fr["verdicts"]:
+                        if fv["status"] == "refuted" and hit is None:
+                            hit = (fr["scope"], fv)
+                if hit is not None:
+                    ob["status"] = "refuted"
+                    ob["prims"] = hit[1]["prims"]
+                    ob["name"] = hit[1]["name"]
+                    ob["backend"] = f"z3 finite-scope expansion (sequence length {hit[0]})"
+                    ob["detail"] = (f"undecided in general; refuted with block count fixed to {hit[0]}: "
+                                    f"{hit[1]['name']}: {hit[1]['detail'][:200]}")
+                    if not any(o2["case"] == c.name and o2.get("name") == ob["name"] for o2 in refuted):
+                        refuted.append(ob)
+                else:
+                    lines.append(f"UNDECIDED obligation={ob['full']} ({v['detail'][:200]})")
+                    bump(2)
     # ---------------------------------------------------------------- replay refutations natively
     os.makedirs(os.path.join(HERE, "replays", prop), exist_ok=True)
     njobs = [dict(module=o["module"], case=o["case"], prims=o["prims"]) for o in refuted if o["prims"] is not None]
